@@ -32,8 +32,8 @@ std::string op_str(Op const& o)
 }
 
 struct Wait { int timer; int64_t start, expiry; int arm_seq; bool rearmed_by_wait; int ran = 0; int64_t run_t = -1; bool ok = false; int order = -1;
-	bool aborted_by_op = false; int64_t abort_t = -1; bool due_limbo = false; };
-struct PostItem { int64_t t; int ran = 0; int64_t run_t = -1; int order = -1; bool defer; };
+	bool aborted_by_op = false; int64_t abort_t = -1; bool due_limbo = false; int64_t seq = -1; /* position in the order in which completions were queued by calls of the program (abort by cancel / re-arm / destroy); -1: queued by the clock, or by waiting on a due timer (which may still be in the timer queue) */ };
+struct PostItem { int64_t t; int ran = 0; int64_t run_t = -1; int order = -1; bool defer; int64_t seq = -1; };
 
 struct Exec
 {
@@ -96,9 +96,9 @@ struct Exec
 		bool due = w->expiry <= t;
 		if (!due) {
 			if (ret != 1) { f03(fmt("return_value: %s on T%d returned %zu although a wait (expiry %lld, now %lld) was pending", what, i, ret, (long long)w->expiry, (long long)t)); w->due_limbo = true; w->abort_t = t; }
-			else { w->aborted_by_op = true; w->abort_t = t; ++n_aborts; }
+			else { w->aborted_by_op = true; w->abort_t = t; w->seq = ready_counter++; ++n_aborts; }
 		} else {
-			if (ret == 1) { w->aborted_by_op = true; w->abort_t = t; ++n_aborts; }
+			if (ret == 1) { w->aborted_by_op = true; w->abort_t = t; w->seq = ready_counter++; ++n_aborts; }
 			else if (ret == 0) w->due_limbo = true; // must then complete successfully
 			else f03(fmt("return_value: %s on T%d returned %zu", what, i, ret));
 		}
@@ -141,11 +141,11 @@ struct Exec
 				if (T.cur_wait >= 0) { Wait& c = waits[size_t(T.cur_wait)]; if (c.ran == 0 && !c.aborted_by_op) w = &c; }
 				VF_API(timers[size_t(o.timer)].reset());
 				T.alive = false;
-				if (w) { if (w->expiry > t) { w->aborted_by_op = true; w->abort_t = t; ++n_aborts; } else { w->due_limbo = true; w->abort_t = t; } }
+				if (w) { if (w->expiry > t) { w->aborted_by_op = true; w->abort_t = t; w->seq = ready_counter++; ++n_aborts; } else { w->due_limbo = true; w->abort_t = t; } }
 				log.push_back(fmt("@%lld %s", (long long)t, op_str(o).c_str()));
 				break; }
 			case OP_POST: case OP_DEFER: {
-				int pid = int(posts.size()); PostItem p; p.t = t; p.defer = (o.k == OP_DEFER); posts.push_back(p);
+				int pid = int(posts.size()); PostItem p; p.t = t; p.defer = (o.k == OP_DEFER); if (!p.defer) p.seq = ready_counter++; posts.push_back(p);
 				log.push_back(fmt("@%lld %s (item #%d)", (long long)t, op_str(o).c_str(), pid));
 				if (o.k == OP_POST) VF_API(asio::post(*ios, [this, pid]() { on_post(pid); }));
 				else VF_API(asio::defer(*ios, [this, pid]() { on_post(pid); }));
@@ -182,7 +182,9 @@ struct Exec
 		++n_handlers;
 		int64_t t = now_ns();
 		sample("handler");
-		if (api_depth() > 0) f03("inline: handler " + id + " invoked from inside an initiating call");
+		if (api_depth() > 0) { f03("inline: handler " + id + " invoked from inside an initiating call");
+			// it also overtook whatever was queued before that call
+			for (size_t i = 0; i < posts.size(); ++i) if (!posts[i].ran && posts[i].seq >= 0) { f02(fmt("fifo: handler %s ran inside the call that queued it, ahead of posted item #%zu which was queued earlier", id.c_str(), i)); break; } }
 		if (stopped_model && t > stop_t) f02(fmt("stop: handler %s ran at %lld, later than stop() at %lld, before run() returned", id.c_str(), (long long)t, (long long)stop_t));
 		if (!in_run) f02("run: handler " + id + " executed outside run()");
 		// the clock moves only when no handler is ready: whatever became ready before t must have run before the clock reached t
@@ -194,12 +196,20 @@ struct Exec
 		if (ctx) ++ctx->R.transitions;
 	}
 
+	// completions queued by calls of the program (posts, waits aborted by cancel / re-arm / destroy) run in the order in which they were queued
+	int64_t ready_counter = 0;
+	void fifo_check(int64_t my, std::string const& who)
+	{
+		for (size_t i = 0; i < posts.size(); ++i) if (!posts[i].ran && posts[i].seq >= 0 && posts[i].seq < my) { f02(fmt("fifo: %s ran before posted item #%zu, which was queued earlier", who.c_str(), i)); return; }
+		for (size_t i = 0; i < waits.size(); ++i) if (!waits[i].ran && waits[i].seq >= 0 && waits[i].seq < my) { f02(fmt("fifo: %s ran before the completion of wait #%zu on T%d, which was queued earlier (by a cancel / re-arm / destroy)", who.c_str(), i, waits[i].timer)); return; }
+	}
 	void on_wait(int wid, error_code const& ec)
 	{
 		handler_common(fmt("wait#%d(T%d)", wid, waits[size_t(wid)].timer), ec);
 		Wait& w = waits[size_t(wid)];
 		int64_t t = now_ns();
 		++w.ran; w.order = order_counter++;
+		if (w.ran == 1 && w.seq >= 0) fifo_check(w.seq, fmt("wait #%d on T%d", wid, w.timer));
 		if (w.ran > 1) f03(fmt("exactly_once: wait #%d on T%d completed %d times", wid, w.timer, w.ran));
 		else {
 			w.run_t = t; w.ok = !ec;
@@ -223,6 +233,7 @@ struct Exec
 		PostItem& p = posts[size_t(pid)];
 		int64_t t = now_ns();
 		++p.ran; p.order = order_counter++;
+		if (p.ran == 1 && p.seq >= 0) fifo_check(p.seq, fmt("posted item #%d", pid));
 		if (p.ran > 1) f02(fmt("post_once: posted item #%d ran %d times", pid, p.ran));
 		else {
 			p.run_t = t;
@@ -297,6 +308,62 @@ struct Exec
 	}
 };
 
+// ---------------------------------------------------------------------------------------------
+// second family (C03): three or four timers, every assignment of expiries from {5, 10, 20 ms}, of the moment each
+// is created (before run(), or inside a handler at 7 ms) and of the way it is armed (expires_after, expires_at,
+// the constructor taking a duration, the constructor taking a time point), optionally one re-arm. Oracle: every
+// wait completes successfully at max(expiry, start), and the completion order is (ready time, expiry, arming order).
+// ---------------------------------------------------------------------------------------------
+struct TieSpec { int expiry_ms; int phase; int ctor; };
+struct TieRes { std::vector<std::string> fails; std::string trace; uint64_t handlers = 0; };
+
+TieRes run_ties(std::vector<TieSpec> const& specs, int rearm_timer /* -1 none */, int rearm_ms)
+{
+	TieRes R; auto fail = [&](std::string const& x) { if (R.fails.size() < 6) R.fails.push_back(x); };
+	World w; sim::simulation sim(w); asio::io_context ios(sim, addr("10.0.0.1"));
+	size_t const n = specs.size();
+	std::vector<std::unique_ptr<asio::high_resolution_timer>> tm(n);
+	struct M { int64_t expiry, start, ready; int arm; int64_t ran_t = -1; int order = -1; std::string ec; int ran = 0; };
+	std::vector<M> m(n); int arm_counter = 0, order_counter = 0;
+	auto create = [&](size_t i) {
+		TieSpec const& sp = specs[i]; int64_t now = now_ns(); int64_t abs_ = int64_t(sp.expiry_ms) * MS;
+		switch (sp.ctor) {
+			case 0: tm[i].reset(new asio::high_resolution_timer(ios)); tm[i]->expires_after(ns(abs_ - now)); break;
+			case 1: tm[i].reset(new asio::high_resolution_timer(ios)); tm[i]->expires_at(time_point(ns(abs_))); break;
+			case 2: tm[i].reset(new asio::high_resolution_timer(ios, duration(ns(abs_ - now)))); break;
+			default: tm[i].reset(new asio::high_resolution_timer(ios, time_point(ns(abs_)))); break;
+		}
+		m[i].expiry = abs_; m[i].start = now; m[i].arm = arm_counter++;
+		int64_t got = tm[i]->expiry().time_since_epoch().count();
+		if (got != abs_) fail(fmt("expiry: timer %zu armed at %lld for %lld (way %d) reports expiry() %lld", i, (long long)now, (long long)abs_, sp.ctor, (long long)got));
+		tm[i]->async_wait([&, i](error_code const& ec) { ++R.handlers; ++m[i].ran; m[i].ran_t = now_ns(); m[i].order = order_counter++; m[i].ec = ecs(ec); });
+		R.trace += fmt("@%lld T%zu armed for %lldms (way %d) ; ", (long long)now, i, (long long)sp.expiry_ms, sp.ctor);
+	};
+	for (size_t i = 0; i < n; ++i) if (specs[i].phase == 0) create(i);
+	if (rearm_timer >= 0 && specs[size_t(rearm_timer)].phase == 0) { // re-arm before run(): the pending wait is aborted, a new wait is started
+		size_t i = size_t(rearm_timer); std::size_t r = tm[i]->expires_at(time_point(ns(int64_t(rearm_ms) * MS)));
+		if (r != 1) fail(fmt("return_value: re-arming timer %zu with a wait pending returned %zu", i, r));
+		m[i].expiry = int64_t(rearm_ms) * MS; m[i].arm = arm_counter++; m[i].ran = -1; // the aborted completion comes first
+		tm[i]->async_wait([&, i](error_code const& ec) { ++R.handlers; ++m[i].ran; m[i].ran_t = now_ns(); m[i].order = order_counter++; m[i].ec = ecs(ec); });
+		R.trace += fmt("@0 T%zu re-armed for %dms ; ", i, rearm_ms);
+	}
+	asio::high_resolution_timer trig(ios); trig.expires_at(time_point(ns(7 * MS)));
+	bool any_late = false; for (auto& sp : specs) if (sp.phase == 1) any_late = true;
+	if (any_late) trig.async_wait([&](error_code const&) { for (size_t i = 0; i < n; ++i) if (specs[i].phase == 1) create(i); });
+	sim.run();
+	for (size_t i = 0; i < n; ++i) { m[i].ready = std::max(m[i].expiry, m[i].start);
+		int want_runs = (int(i) == rearm_timer && specs[i].phase == 0) ? 1 : 1; (void)want_runs;
+		if (m[i].ran != 1 && !(int(i) == rearm_timer && specs[i].phase == 0 && m[i].ran == 1)) { if (m[i].ran != 1) fail(fmt("exactly_once: the wait on timer %zu completed %d times", i, m[i].ran < 0 ? 0 : m[i].ran)); continue; }
+		if (m[i].ec != "ok") fail(fmt("error_code: the wait on timer %zu completed with %s", i, m[i].ec.c_str()));
+		if (m[i].ran_t != m[i].ready) fail(fmt("fire_time: timer %zu armed at %lld for %lld completed at %lld, expected %lld", i, (long long)m[i].start, (long long)m[i].expiry, (long long)m[i].ran_t, (long long)m[i].ready)); }
+	for (size_t a = 0; a < n; ++a) for (size_t b = 0; b < n; ++b) { if (a == b || m[a].ran != 1 || m[b].ran != 1) continue;
+		auto key = [&](M const& x) { return std::make_tuple(x.ready, x.expiry, x.arm); };
+		if (key(m[a]) < key(m[b]) && m[a].order > m[b].order) fail(fmt("order: timer %zu (ready %lld, expiry %lld, armed #%d) completed after timer %zu (ready %lld, expiry %lld, armed #%d)", a, (long long)m[a].ready, (long long)m[a].expiry, m[a].arm, b, (long long)m[b].ready, (long long)m[b].expiry, m[b].arm)); }
+	for (size_t i = 0; i < n; ++i) R.trace += fmt("T%zu@%lld#%d ", i, (long long)m[i].ran_t, m[i].order);
+	tm.clear();
+	return R;
+}
+
 struct TimerEngine : Engine
 {
 	int NT = 2, DEPTH = 4; bool want02 = true, want03 = true;
@@ -319,7 +386,7 @@ struct TimerEngine : Engine
 			if (c1.trace.size() < 2) { unit_prefix.push_back({ c0 }); continue; }
 			for (int k = 0; k < c1.trace[1].first; ++k) unit_prefix.push_back({ c0, k });
 		}
-		return unit_prefix.size();
+		return unit_prefix.size() + (want03 ? 24u : 0u);
 	}
 	void judge(Ctx& ctx, Exec& e, std::vector<int> const& taken)
 	{
@@ -357,8 +424,31 @@ struct TimerEngine : Engine
 		if (ctx.R.samples.empty() && e.log.size() > 6) { std::string tr; for (auto& l : e.log) tr += l + " ; "; ctx.R.sample(tr); }
 		ctx.end();
 	}
+	static TieSpec tie_spec(int code) { return TieSpec{ (code % 3 == 0) ? 5 : (code % 3 == 1 ? 10 : 20), (code / 3) % 2, code / 6 }; } // 24 codes: expiry x phase x way
+	void tie_case(Ctx& ctx, std::vector<int> const& codes, int rearm, int rearm_ms)
+	{
+		if (!ctx.next_case()) return;
+		Case c; c.set("ties", 1).set_ints("codes", codes).set("rearm", rearm).set("rearm_ms", rearm_ms);
+		ctx.begin(c);
+		std::vector<TieSpec> sp; for (int x : codes) sp.push_back(tie_spec(x));
+		TieRes r = run_ties(sp, rearm, rearm_ms);
+		ctx.R.transitions += r.handlers; ctx.outcome(r.trace); ctx.R.counters["tie_programs"]++;
+		auto clause_of = [](std::string const& x) { return x.substr(0, x.find(':')); };
+		for (auto& f : r.fails) add_violation(ctx, clause_of(f), c, f + " | " + r.trace, "ties/" + clause_of(f));
+		ctx.end();
+	}
+	void tie_unit(int first, Ctx& ctx)
+	{
+		ctx.watchdog_s = 5;
+		// three timers: every (expiry, moment, way) for each; the first one is this unit's
+		for (int b = 0; b < 24; ++b) for (int c = 0; c < 24; ++c) tie_case(ctx, { first, b, c }, -1, 0);
+		// four timers armed before run() with expires_after, every expiry assignment, then every single re-arm
+		if (first < 3) for (int b = 0; b < 3; ++b) for (int c = 0; c < 3; ++c) for (int d = 0; d < 3; ++d) { tie_case(ctx, { first, b, c, d }, -1, 0);
+			for (int r = 0; r < 4; ++r) for (int ms_ : { 5, 10, 20 }) tie_case(ctx, { first, b, c, d }, r, ms_); }
+	}
 	void run_unit(uint64_t u, Ctx& ctx) override
 	{
+		if (u >= unit_prefix.size()) { tie_unit(int(u - unit_prefix.size()), ctx); return; }
 		ctx.watchdog_s = 5;
 		std::vector<int> pre = unit_prefix[size_t(u)];
 		// explore everything below this prefix
@@ -384,7 +474,16 @@ struct TimerEngine : Engine
 	}
 	int replay(Case const& c, Args const& a) override
 	{
-		setup(a); NT = int(c.num("nt", NT)); DEPTH = int(c.num("depth", DEPTH));
+		setup(a);
+		if (c.has("ties")) {
+			std::vector<TieSpec> sp; for (int x : c.ints("codes")) sp.push_back(tie_spec(x));
+			TieRes r = run_ties(sp, int(c.num("rearm", -1)), int(c.num("rearm_ms")));
+			std::fprintf(stdout, "%s\n", r.trace.c_str());
+			for (auto& f : r.fails) std::fprintf(stdout, "VIOLATION %s\n", f.c_str());
+			std::fprintf(stdout, r.fails.empty() ? "=> ok\n" : "=> %zu violation(s)\n", r.fails.size());
+			return r.fails.empty() ? 0 : 1;
+		}
+		NT = int(c.num("nt", NT)); DEPTH = int(c.num("depth", DEPTH));
 		Args a2 = a; a2.tier = c.num("thorough") ? "thorough" : "quick";
 		Chooser ch; ch.reset(c.ints("choices"));
 		Exec e = make(ch, nullptr, a2); e.verbose = true;
